@@ -148,7 +148,7 @@ func (r *Reconciler) commitChange(ctx context.Context, transaction *configapi.Tr
 		}
 
 		if configuration.Committed.Target != transaction.ID.Index {
-			if configuration.Committed.Index != configuration.Committed.Target {
+			if configuration.Committed.Index < configuration.Committed.Target {
 				return controller.Result{}, false, nil
 			}
 
@@ -552,8 +552,10 @@ func (r *Reconciler) commitRollback(ctx context.Context, transaction *configapi.
 			return controller.Result{}, false, nil
 		}
 
-		if configuration.Committed.Target == transaction.ID.Index {
-			if configuration.Committed.Index != configuration.Committed.Target {
+		// The prior commit (of this change, of a later change that failed validation, or of the rollback
+		// of a later change) must be done before the committed target is moved back.
+		if configuration.Committed.Target != transaction.Status.Rollback.Index {
+			if configuration.Committed.Index < configuration.Committed.Target {
 				return controller.Result{}, false, nil
 			}
 
@@ -566,11 +568,11 @@ func (r *Reconciler) commitRollback(ctx context.Context, transaction *configapi.
 				if !errors.IsNotFound(err) {
 					return controller.Result{}, false, err
 				}
-			} else if configuration.Committed.Index == transaction.ID.Index &&
-				prevTransaction.Status.Change.Commit.State != configapi.TransactionPhaseStatus_COMPLETE {
+			} else if configuration.Committed.Target == configuration.Committed.Index &&
+				prevTransaction.Status.Change.Commit.State <= configapi.TransactionPhaseStatus_IN_PROGRESS {
 				return controller.Result{}, false, nil
-			} else if configuration.Committed.Index > transaction.ID.Index &&
-				prevTransaction.Status.Rollback.Commit.State != configapi.TransactionPhaseStatus_COMPLETE {
+			} else if configuration.Committed.Target < configuration.Committed.Index &&
+				prevTransaction.Status.Rollback.Commit.State <= configapi.TransactionPhaseStatus_IN_PROGRESS {
 				return controller.Result{}, false, nil
 			}
 
